@@ -102,7 +102,16 @@ PARAM_MENU = [["language", ["s", "de"]], ["ALTREP", ["s", "http://example.com/a,
 # ---------------------------------------------------------------------------
 # value menu: name -> (value kind, generator)
 
+# the same instant AND the same wall clock in UTC and in zones that are at +00:00 in winter: equal date-times by
+# every comparison Python offers, different bytes on the wire (Z / TZID=...)
+TWIN_WALLS = [[2020, 1, 15, 12, 0, 0], [2021, 12, 1, 8, 30, 0]]
+TWIN_ZONES = [["utc"], ["utc"], ["zi", "Europe/London"], ["du", "Europe/London"], ["pytz", "Europe/London"],
+              ["zi", "Africa/Abidjan"], ["fixed", 0, "GMT"], None]
+
+
 def _dt(rng, zone="any"):
+    if zone == "any" and rng.random() < 0.12:
+        return ["dt", *rng.choice(TWIN_WALLS), rng.choice(TWIN_ZONES)]
     w = [rng.choice([1999, 2020, 2021, 2030]), rng.randint(1, 12), rng.randint(1, 28), rng.randint(0, 23),
          rng.choice([0, 30, 59]), rng.choice([0, 0, 59])]
     z = rng.choice([None, ["utc"], "z", "z"]) if zone == "any" else zone
